@@ -411,6 +411,14 @@ def c14(tier, seed):
     c.assumptions = ["the reference block device decodes the request header per Virtio 1.2 5.2.6 (little-endian type/reserved/sector)", "data integrity is compared by 64-bit FNV digests"]
     c.add_mc(run_tlc_mc("BlkMC", "BlkMC.cfg", workers=MCW, timeout=900))
     device_family(c, "blk", "BlkTrace", "BlkTrace.cfg", seed, tier)
+    # "capacity ... equals the device's configuration" also while the device changes it: every
+    # placement of device updates among the driver's configuration reads (the cfg family of C13)
+    out = os.path.join(WORK, c.pid, "cfg.ndjson")
+    idx = run_harness("cfg", out, seed, tier)
+    v = validate_traces("ConfigTrace", "ConfigTrace.cfg", out, idx, max_events=1500)
+    c.add_validation(v, "cfg")
+    if not c.violations:
+        os.remove(out)
     return c.finish()
 
 
